@@ -329,6 +329,61 @@ func genSyncTab(repo string) (string, error) {
 	def("nsqd_cc_registers_channels", regChans && sendsAll)
 	def("nsqd_cc_skips_exiting_topics", skipTopics)
 	def("nsqd_cc_skips_exiting_channels", skipChans)
+	// the condition guarding Register(topic.name, ""): `<counter> == 0` where <counter> is
+	// incremented next to the channel REGISTER (after the Exiting() skip) means "no live
+	// channel was registered"; anything else (e.g. len(topic.channelMap) == 0) does not
+	bareNoLive := false
+	ast.Inspect(lit.Body, func(n ast.Node) bool {
+		r, ok := n.(*ast.RangeStmt)
+		if !ok || rangeOver(r) != "topicMap" {
+			return true
+		}
+		counters := map[string]bool{}
+		ast.Inspect(r.Body, func(m ast.Node) bool {
+			r2, ok := m.(*ast.RangeStmt)
+			if !ok || rangeOver(r2) != "channelMap" || !skipsExiting(r2.Body) {
+				return true
+			}
+			seenReg := false
+			for _, st := range r2.Body.List {
+				if hasCallQual(st, "nsq.Register") {
+					seenReg = true
+				}
+				if inc, ok := st.(*ast.IncDecStmt); ok && inc.Tok == token.INC && seenReg {
+					if id, ok := inc.X.(*ast.Ident); ok {
+						counters[id.Name] = true
+					}
+				}
+			}
+			return true
+		})
+		ast.Inspect(r.Body, func(m ast.Node) bool {
+			is, ok := m.(*ast.IfStmt)
+			if !ok {
+				return true
+			}
+			regs := findCalls(is.Body, func(c *ast.CallExpr) bool {
+				if qualName(c) != "nsq.Register" || len(c.Args) != 2 {
+					return false
+				}
+				l, ok := c.Args[1].(*ast.BasicLit)
+				return ok && l.Value == `""`
+			})
+			if len(regs) == 0 {
+				return true
+			}
+			if b, ok := is.Cond.(*ast.BinaryExpr); ok && b.Op == token.EQL {
+				if id, ok := b.X.(*ast.Ident); ok && counters[id.Name] {
+					if v, err := p.evalInt(b.Y, 0, 0); err == nil && v.Sign() == 0 {
+						bareNoLive = true
+					}
+				}
+			}
+			return true
+		})
+		return false
+	})
+	def("nsqd_cc_bare_topic_when_no_live_channel", bareNoLive)
 
 	// ---- lookupLoop
 	ll := p.method("NSQD", "lookupLoop")
@@ -493,8 +548,90 @@ func genSyncTab(repo string) (string, error) {
 	sb.WriteString("(* nsqd/nsqd.go GetTopic / Notify *)\n")
 	def("nsqd_gettopic_precreates_before_start", pre)
 	def("nsqd_gettopic_skips_ephemeral", skips)
+	// the channel names are used even when the query returned an error (partial result): the
+	// `if err != nil` that follows the call only logs, and the GetChannel loop is not in its else
+	usesPartial := false
+	if len(query) > 0 && len(getch) > 0 {
+		stmtsWalk(gt.Body.List, func(st ast.Stmt) {
+			is, ok := st.(*ast.IfStmt)
+			if !ok || !isErrNotNil(is.Cond) || is.Pos() < query[0].Pos() || is.Pos() > getch[0].Pos() {
+				return
+			}
+			returns := false
+			ast.Inspect(is.Body, func(m ast.Node) bool {
+				if _, ok := m.(*ast.ReturnStmt); ok {
+					returns = true
+				}
+				return true
+			})
+			if !returns && is.Else == nil && getch[0].Pos() > is.End() {
+				usesPartial = true
+			}
+		})
+	}
+	def("nsqd_gettopic_uses_partial_result", usesPartial)
 	def("nsqd_notify_sends_in_goroutine", inGo)
 	def("nsqd_notify_selects_on_exit", selExit)
+
+	// ---- internal/clusterinfo GetLookupdTopicChannels: the len(errs) rules
+	ci, err := loadPkg(repo, "internal/clusterinfo")
+	if err != nil {
+		return "", err
+	}
+	tc := ci.method("ClusterInfo", "GetLookupdTopicChannels")
+	if tc == nil {
+		return "", fmt.Errorf("GetLookupdTopicChannels not found")
+	}
+	isLen := func(e ast.Expr, of string) bool {
+		c, ok := e.(*ast.CallExpr)
+		if !ok || callName(c) != "len" || len(c.Args) != 1 {
+			return false
+		}
+		id, ok := c.Args[0].(*ast.Ident)
+		return ok && id.Name == of
+	}
+	firstResultNil := func(b *ast.BlockStmt) (isReturn, isNil bool) {
+		if len(b.List) == 0 {
+			return false, false
+		}
+		r, ok := b.List[len(b.List)-1].(*ast.ReturnStmt)
+		if !ok || len(r.Results) != 2 {
+			return false, false
+		}
+		id, ok := r.Results[0].(*ast.Ident)
+		return true, ok && id.Name == "nil"
+	}
+	failsOnlyAll, partial := true, false
+	sawAllRule := false
+	for _, st := range tc.Body.List {
+		is, ok := st.(*ast.IfStmt)
+		if !ok {
+			continue
+		}
+		b, ok := is.Cond.(*ast.BinaryExpr)
+		if !ok || !isLen(b.X, "errs") {
+			continue
+		}
+		ret, nilFirst := firstResultNil(is.Body)
+		if !ret {
+			continue
+		}
+		if nilFirst {
+			// a return that drops the data: allowed only under len(errs) == len(lookupdHTTPAddrs)
+			if b.Op == token.EQL && isLen(b.Y, "lookupdHTTPAddrs") {
+				sawAllRule = true
+			} else {
+				failsOnlyAll = false
+			}
+		} else if b.Op == token.GTR {
+			if v, err := ci.evalInt(b.Y, 0, 0); err == nil && v.Sign() == 0 {
+				partial = true // return channels, ErrList(errs)
+			}
+		}
+	}
+	sb.WriteString("(* internal/clusterinfo/data.go GetLookupdTopicChannels: the len(errs) rules *)\n")
+	def("clusterinfo_topicchannels_fails_only_when_all_fail", failsOnlyAll && sawAllRule)
+	def("clusterinfo_topicchannels_returns_partial_result", partial)
 	return sb.String(), nil
 }
 
